@@ -429,14 +429,16 @@ pub fn gen(seed: u64, n: usize, tier: &str) -> Vec<Case> {
     let mut id = 0usize;
     let mut add = |tag: &str, ops: Vec<Vec<Tok>>, id: &mut usize| { cases.push(Case { id: format!("{}-{}", tag, *id), ops, outs: vec![] }); *id += 1; };
     // (a) one boundary-sized value of each type, with and without TTL.  The executable model is
-    // list-based (quadratic set/hash/zset insertion): their 2^14 boundary runs in the thorough tier.
+    // list-based (quadratic set/hash/zset insertion, per-key fuel = remaining file length): the 2^14
+    // boundary of set/hash counts runs in the thorough tier; zset counts and key counts stop at 4096.
     for ty in 0..6u64 {
         let sizes: Vec<usize> = match (ty, thorough) {
             (0, _) => vec![0, 1, 63, 64, 16383, 16384],
             (1, false) => vec![1, 63, 64, 16383, 16384],
             (1, true) => vec![1, 63, 64, 16383, 16384, 65536, 70000],
             (5, false) => vec![1, 63, 64, 4095, 4096],
-            (5, true) => vec![1, 63, 64, 4095, 4096, 8000],
+            (5, true) => vec![1, 63, 64, 4095, 4096, 4500],
+            (4, true) => vec![1, 63, 64, 300, 4096],
             (_, false) => vec![1, 63, 64, 300],
             (_, true) => vec![1, 63, 64, 300, 16383, 16384],
         };
@@ -460,7 +462,7 @@ pub fn gen(seed: u64, n: usize, tier: &str) -> Vec<Case> {
         add("size-64k", ops, &mut id);
     }
     // (b) number of keys around the length-encoding boundary (resize hint, 14-bit form)
-    let kcounts: &[usize] = if thorough { &[63, 64, 65, 16384] } else { &[63, 64, 65, 300] };
+    let kcounts: &[usize] = if thorough { &[63, 64, 65, 300, 4096] } else { &[63, 64, 65, 300] };
     for &nk in kcounts {
         let mut ops = vec![];
         for k in 0..nk { let mut o = op_t("SET"); o.push(i(2)); o.push(bv(format!("key{}", k).as_bytes())); o.push(bv(&small(&mut r))); o.push(Tok::I(if k % 7 == 0 { 500_000 + k as i128 } else { -1 })); ops.push(o); }
@@ -499,6 +501,19 @@ pub fn gen(seed: u64, n: usize, tier: &str) -> Vec<Case> {
         let mut s = op_t("SLEEP"); s.push(i(1700)); ops.push(s);
         ops.push(op_t("RELOAD")); ops.push(op_t("DUMP"));
         add("downtime", ops, &mut id);
+    }
+    // a key already past its deadline at the save (not yet swept): skipped by the writer, absent afterwards
+    {
+        let mut ops = vec![];
+        let mut o = op_t("SET"); o.push(i(0)); o.push(bv(b"gone")); o.push(bv(b"v")); o.push(Tok::I(30)); ops.push(o);
+        let mut o = op_t("SADD"); o.push(i(1)); o.push(bv(b"gone-set")); o.push(bv(b"m")); ops.push(o);
+        let mut o = op_t("EXPIRE"); o.push(i(1)); o.push(bv(b"gone-set")); o.push(Tok::I(30)); ops.push(o);
+        let mut o = op_t("SET"); o.push(i(0)); o.push(bv(b"stays")); o.push(bv(b"v")); o.push(Tok::I(90_000)); ops.push(o);
+        let mut s = op_t("SLEEP"); s.push(i(80)); ops.push(s);
+        ops.push(op_t("ISAVE")); ops.push(op_t("RELOAD")); ops.push(op_t("DUMP"));
+        let mut m = op_t("MSAVE"); m.push(Tok::I(1000)); ops.push(m);
+        ops.push(op_t("RELOAD")); ops.push(op_t("DUMP"));
+        add("expired-before-save", ops, &mut id);
     }
     // (e) the known classes, kept apart from the regular stream
     {
@@ -553,6 +568,13 @@ fn parse_dump(t: &[Tok]) -> Option<Vec<KeyRow>> {
 fn class_of(before: &KeyRow) -> Option<&'static str> {
     match before.val.first() {
         Some(Tok::I(1)) => if before.val.get(2).map(|x| x == &bv(MARKER)).unwrap_or(false) { Some("marker-collision") } else { None },
+        Some(Tok::I(4)) => {
+            // a member with two nodes (a member re-scored while its score was NaN: C04's defect)
+            let n = tok_int(&before.val[1]) as usize;
+            let mut seen = std::collections::HashSet::new();
+            for j in 0..n { if !seen.insert(tok_bytes(&before.val[2 + 2 * j]).to_vec()) { return Some("zset-nan-duplicate-node"); } }
+            None
+        }
         Some(Tok::I(5)) => {
             if before.val.get(1) == Some(&i(0)) { return Some("empty-stream-lost"); }
             // an entry without fields
